@@ -32,6 +32,7 @@ class Validation:
         self.convex = True
         self.certified = None
         self.flat_certified = None
+        self.uniform_certified = None
 
     def kinds(self):
         return {d['kind'] for d in self.disc}
@@ -219,7 +220,8 @@ def validate(run, case, model, lazy=True, cache=True, tables_from='model') -> Va
             if r != 'ok': raise RuntimeError(f'driver refused line {l!r}: {r}')
         r = model.ask('B_GO')
         v.certified = ' certified' in r
-        v.flat_certified = r.endswith(' flat')
+        v.flat_certified = ' flat' in r
+        v.uniform_certified = ' uniform' in r
         if r.startswith('ok'):
             if v.convex and not v.certified:
                 v.disc.append(dict(kind='uncertified', at=-1, detail='the static tables of this convex scenario do not pass check_static: the premise static_ok of the scheduler theorems is not established'))
@@ -235,10 +237,11 @@ def validate(run, case, model, lazy=True, cache=True, tables_from='model') -> Va
             return v
         if v.impl_kind == 'scenario':
             return v        # rejected by the cycle check before any table of the run exists (C06 covers this)
-        if (not any(case['grp']) and case['until'] > 0 and all(t < case['until'] for _, t in case.get('init', []))
-                and v.certified and not v.flat_certified):
-            v.disc.append(dict(kind='uncertified_flat', at=-1, detail='flat scenario accepted by the cycle check whose tables do not pass check_flat: '
-                               'the premise of the progress theorem (C05_progress_flat) is not established'))
+        one_group = len({tuple(g) for g in case['grp']}) == 1
+        if (one_group and case['until'] > 0 and all(t < case['until'] for _, t in case.get('init', []))
+                and v.certified and not (v.uniform_certified and (v.flat_certified or any(case['grp'])))):
+            v.disc.append(dict(kind='uncertified_flat', at=-1, detail='scenario with all simulators in one group (or none), accepted by the cycle check, whose tables do not pass '
+                               'check_uniform: the premise of the progress theorems (C05_progress_flat / C05_progress_one_group) is not established'))
         md = model.ask('B_DUMP'); idump = impl_dump(run, idx, tok)
         if md != idump:
             ms, is_ = set(md.split(';')), set(idump.split(';'))
